@@ -353,3 +353,161 @@ contract(F, 'Pkey.__embed__', props=('C13', 'C14'), params={'self': 'self', 'ine
          hooks={'getattr': h_getattr, 'getitem': pk_getitem},
          policies={ST + '::stream': stream_pol, 'counter': counter_pol},
          opts={'generator_trace': True}, native=False)
+
+
+# ---- Pmono._embed_mono: one synth, then only parameter changes for THAT synth --------------------------------------
+# while no node exists (first pass): an event of type '_mono_on' is made from the input, updated with the values of
+# this pass, PREPARED with the pattern's instrument (that is where the node id comes from: seq_event_keys), a
+# '_mono_off' event carrying the kept keys of this event is registered for clean-up, and the event is yielded;
+# afterwards (every other pass): an event of type '_mono_set' is made from the input, updated with the values of
+# this pass, and given the SAME server, node id and parameter names as the first event, then yielded.
+# When a key stream ends, the clean-up runs (the registered '_mono_off' releases the synth) and the pattern ends
+# quietly with the current input.
+E = 'sc3/seq/event.py'
+FIRST = z3.Bool('no_node_yet')
+
+
+def opt_kind(tag):
+    def k(eng, name):
+        return V('opt', extra={'isnone': FIRST, 'carried': tag})
+    return k
+
+
+def event_pol(eng, selfv, args, kwargs, st, node):
+    t = kwargs.get('type')
+    r = V('ref', cls='MonoEvent', oid='event!%d' % next(eng.counter),
+          extra={'event': True, 'type': t.py if t is not None and t.k == 'str' else None, 'from': args[0] if args else None})
+    st.trace.append(('new-event', r))
+    return [(st, r)]
+
+
+def mono_getattr(eng, obj, name, st, node):
+    if obj.k == 'ref' and obj.cls == 'MonoEvent':
+        if name == 'update':
+            def upd(eng, a, kw, st, node, _o=obj):
+                st.trace.append(('update', _o, a[0]))
+                return [(st, NONE)]
+            return [(st, V('func', py=('spec', upd)))]
+        if name == '_prepare_event':
+            def prep(eng, a, kw, st, node, _o=obj):
+                st.trace.append(('prepare', _o, a[0]))
+                return [(st, NONE)]
+            return [(st, V('func', py=('spec', prep)))]
+    if obj.k == 'module' and name == 'CleanupEntry':
+        return [(st, V('class', py='CleanupEntry'))]
+    if obj.k == 'obj' and obj.oid == 'the-cleanup' and name in ('add_event', 'run'):
+        def cl(eng, a, kw, st, node, _n=name):
+            st.trace.append(('cleanup-' + _n, tuple(a)))
+            return [(st, NONE)]
+        return [(st, V('func', py=('spec', cl)))]
+    return h_getattr(eng, obj, name, st, node)
+
+
+def mono_construct(eng, f, args, kwargs, st, node):
+    if f.k == 'class' and f.py == 'CleanupEntry':
+        return [(st, V('obj', oid='the-cleanup'))]
+    if f.k == 'class' and f.py == 'event':
+        return event_pol(eng, None, args, kwargs, st, node)
+    return None
+
+
+def mono_getitem(eng, obj, idx, st, node):
+    if obj.k == 'ref' and obj.cls == 'MonoEvent' and idx.k == 'str':
+        return [(st, V('obj', oid='%s[%s]' % (obj.oid, idx.py), extra={'of_event': obj, 'key': idx.py}))]
+    return None
+
+
+def mono_slice(eng, obj, sl, st, node):
+    # event['msg_params'][::2]: the parameter NAMES (every other element of name, value, name, value ...)
+    if obj.k == 'obj' and obj.extra and obj.extra.get('key') == 'msg_params' and sl.lower is None and sl.upper is None \
+            and isinstance(sl.step, ast.Constant) and sl.step.value == 2:
+        return [(st, V('obj', oid=obj.oid + '[::2]', extra={'names_of': obj}))]
+    return None
+
+
+def mono_setitem(eng, obj, idx, v, st, node):
+    if obj.k == 'ref' and obj.cls == 'MonoEvent' and idx.k == 'str':
+        st.trace.append(('set', obj, idx.py, v))
+        return [('next', st)]
+    return None
+
+
+def mono_dictcomp(eng, e, st):
+    made = [x for x in st.trace if x[0] == 'stream-dict-made']
+    if not made:
+        st.trace.append(('stream-dict-made',))
+        return [(st, V('obj', oid='the-stream-dict'))]
+    # {k: event[k] for k in kept_keys}: the kept keys of the event named in the element expression
+    src = st.env.get(e.value.value.id) if isinstance(e.value, ast.Subscript) and isinstance(e.value.value, ast.Name) else None
+    it = e.generators[0].iter
+    r = V('obj', oid='kept-keys-of!%d' % next(eng.counter),
+          extra={'kept_from': src, 'keys': st.env.get(it.id) if isinstance(it, ast.Name) else None})
+    return [(st, r)]
+
+
+def mono_remember(eng, st):
+    st.ghost = dict(st.ghost)
+    st.ghost['inevent_at_head'] = st.env.get('inevent')
+
+
+def mono_pass(c, L):
+    if L.phase != 'after':
+        return z3.BoolVal(True)
+    ev = [e for e in sdn_since(c.trace) if e[0] in ('new-event', 'next-values', 'update', 'prepare', 'set', 'cleanup-add_event',
+                                                   'cleanup-run', 'yield', 'exhausted', 'stream-dict-made')]
+    head = c.st.ghost.get('inevent_at_head')
+    kinds = [e[0] for e in ev]
+    env = c.st.env
+    if kinds == ['new-event', 'next-values', 'update', 'prepare', 'new-event', 'cleanup-add_event', 'yield']:
+        ne, nv, up, pr, off, ca, y = ev
+        on = ne[1]
+        kept = off[1].extra['from']
+        ok = (on.extra['type'] == '_mono_on' and on.extra['from'] is head
+              and up[1] is on and up[2] is nv[2]
+              and pr[1] is on and pr[2].k == 'obj' and pr[2].oid == 'self.instrument'       # prepared with THE instrument
+              and off[1].extra['type'] == '_mono_off' and kept is not None and kept.k == 'obj' and kept.extra.get('kept_from') is on
+              and kept.extra.get('keys') is not None and kept.extra['keys'].k == 'obj' and kept.extra['keys'].oid == 'self._kept_keys'
+              and len(ca[1]) == 1 and ca[1][0] is off[1]                                   # the release is registered
+              and y[1] is on
+              # what is carried to the later passes comes from THIS event
+              and env['server'].k == 'obj' and env['server'].extra.get('of_event') is on and env['server'].extra['key'] == 'server'
+              and env['node_id'].k == 'obj' and env['node_id'].extra.get('of_event') is on and env['node_id'].extra['key'] == 'node_id'
+              and env['mono_params'].k == 'obj' and env['mono_params'].extra.get('names_of') is not None
+              and env['mono_params'].extra['names_of'].extra.get('of_event') is on)
+        return z3.And(FIRST, z3.BoolVal(bool(ok)))
+    if kinds == ['new-event', 'next-values', 'update', 'set', 'set', 'set', 'yield']:
+        ne, nv, up, s1, s2, s3, y = ev
+        ev_ = ne[1]
+        got = {s[2]: s for s in (s1, s2, s3)}
+        ok = (ev_.extra['type'] == '_mono_set' and ev_.extra['from'] is head and up[1] is ev_ and up[2] is nv[2]
+              and set(got) == {'server', 'node_id', 'mono_params'} and all(s[1] is ev_ for s in (s1, s2, s3))
+              and all(got[k][3].k == 'opt' and got[k][3].extra.get('carried') == k for k in got)   # the SAME synth as before
+              and y[1] is ev_)
+        return z3.And(z3.Not(FIRST), z3.BoolVal(bool(ok)))
+    return z3.BoolVal(False)
+
+
+def mono_post(c):
+    t = [e for e in c.trace if e[0] in ('yield', 'exhausted', 'cleanup-run')]
+    for k, e in enumerate(t):
+        if e[0] == 'exhausted':
+            rest = [x[0] for x in t[k + 1:]]
+            return z3.BoolVal(rest == ['cleanup-run'] and c.resultv is c.st.env.get('inevent'))   # released, then quiet
+    return z3.BoolVal(True)
+
+
+contract(F, 'Pmono._embed_mono', props=('C14', 'C13'), params={'self': 'self', 'inevent': 'obj'},
+         ensures=[('when-a-key-stream-ends-the-clean-up-runs-once-and-nothing-more-is-yielded', mono_post)],
+         loops={0: Loop(early_exit=True, inv=mono_pass,
+                        kinds={'inevent': 'obj', 'event': (lambda e, n: V('obj', oid='havoc')),
+                               'server': opt_kind('server'), 'node_id': opt_kind('node_id'), 'mono_params': opt_kind('mono_params')},
+                        havoc_hook=mono_remember)},
+         fields={'Pmono': {'instrument': 'obj', '_kept_keys': 'obj', 'dict': 'obj'}, 'MonoEvent': {}},
+         class_modules={'Pmono': F, 'MonoEvent': E},
+         hooks={'getattr': mono_getattr, 'construct': mono_construct, 'getitem': mono_getitem, 'setitem': mono_setitem,
+                'dictcomp': mono_dictcomp, 'slice': mono_slice},
+         policies={'Pbind._stream_dict_next': sd_next_pol, 'Pmono._stream_dict_next': sd_next_pol, ST + '::stream': stream_pol,
+                   E + '::event': event_pol},
+         opts={'generator_trace': True}, native=False,
+         note='the loop state "a node exists" is one ghost boolean shared by the three carried locals; what '
+              '_prepare_event and the mono events send is seq_event_keys')
